@@ -1016,6 +1016,9 @@ class GroupBy:
             result_columns = [result[self.group_ikey] for result in result_columns]
             if common_index is not None:
                 result_index = common_index
+            elif getattr(self, "_key_index", None) is not None:
+                # no pandas values (e.g. size): the rows are those of the keys
+                result_index = self._key_index
             else:
                 result_index = pd.RangeIndex(len(self))
         else:
@@ -1446,7 +1449,7 @@ class GroupBy:
 
         group_index = self._result_index[self._labels_argsort]
         if mask is not None:
-            group_index = group_index[[len(arr) > 0 for arr in array_splits[0]]]
+            group_index = group_index[non_empty[: len(group_index)]]
         else:
             group_index = group_index[group_counts > 0]
 
